@@ -658,7 +658,10 @@ def make_pipeline_from_args(  # noqa: C901
             else:
                 interleaved = False
             record_writer = outfiles.open_record_writer(
-                *paths, interleaved=interleaved, exclusive=True
+                *paths,
+                interleaved=interleaved,
+                force_fasta=args.fasta,
+                exclusive=True,
             )
         if paired:
             step = PairedEndFilter(
